@@ -858,12 +858,15 @@ AHetIntLogCondY(i, j, s) ==
 
 \* k_func(p_x, W_u, omega): the log-determinant ingredient of the lower bound at a GIVEN expansion point (C17, clause 2)
 OMEGAS == << Q(1, 2), Q(5, 2) >>
+\* C17 quantifies over models with NON-ZERO offsets w0_i (with w_i = 0 and w0_i = 0 the expansion point is 0 and the
+\* shipped formulas evaluate 0/0; outside the property)
+NonZeroOffsets(c) == \A u \in 1..HDk(c) : ~FEq(HW0(c, u), 0)
 AHetK(i, j, u, oi) ==
     LET c == heap[i] p == heap[j] T == Truth(p, 1)
         mh == FAdd(Dot(HW(c, u), T.mu), HW0(c, u))
         s2 == Quad(HW(c, u), T.Sig, HW(c, u))
         om == OMEGAS[oi]
-    IN /\ c.cls \in {"HetExp", "HetCosh", "HetRelu"} /\ ~c.zw
+    IN /\ c.cls \in {"HetExp", "HetCosh", "HetRelu"} /\ ~c.zw /\ NonZeroOffsets(c)
        /\ IsPdf(p) /\ NumD(p) = HDx(c) /\ NumR(p) = 1 /\ u \in 1..HDk(c)
        /\ Emit(heap, Step("HetK", [i |-> i, j |-> j, u |-> u, omega |-> om], NoObj, 0, NoObj, 0, NoObj,
                           [val |-> <<HetK(c.cls, mh, s2, c.sh[u], QS(om))>>]))
@@ -872,7 +875,7 @@ AHetK(i, j, u, oi) ==
 AHetLBI(i, j, u, oi, s) ==
     LET c == heap[i] p == heap[j] om == OMEGAS[oi]
         qY == Pick(PointMenu(HDy(c)), 1, s)
-    IN /\ c.cls = "HetRelu" /\ IsPdf(p) /\ NumD(p) = HDx(c) /\ NumR(p) = 1 /\ HDa(c) = HDy(c) /\ u \in 1..HDk(c)
+    IN /\ c.cls = "HetRelu" /\ NonZeroOffsets(c) /\ IsPdf(p) /\ NumD(p) = HDx(c) /\ NumR(p) = 1 /\ HDa(c) = HDy(c) /\ u \in 1..HDk(c)
        /\ Emit(heap, Step("HetLBI", [i |-> i, j |-> j, u |-> u, omega |-> om, y |-> qY], NoObj, 0, NoObj, 0, NoObj,
                           [val |-> <<ReluLBI(c, p, u, QV(qY[1]), c.sh, QS(om))>>]))
 
@@ -882,7 +885,7 @@ AHetLBI(i, j, u, oi, s) ==
 \* (verified by HetK / HetLBI for arbitrary expansion points) at the code's own points.
 AHetLBAssembly(i, j, s) ==
     LET c == heap[i] p == heap[j] qY == Pick(PointMenu(HDy(c)), 1, s) IN
-    /\ c.cls \in {"HetExp", "HetCosh", "HetRelu"} /\ ~c.zw
+    /\ c.cls \in {"HetExp", "HetCosh", "HetRelu"} /\ ~c.zw /\ NonZeroOffsets(c)
     /\ IsPdf(p) /\ NumD(p) = HDx(c) /\ NumR(p) = 1 /\ HDa(c) = HDy(c)
     /\ Emit(heap, Step("HetLBAssembly", [i |-> i, j |-> j, y |-> qY], NoObj, 0, NoObj, 0, NoObj,
                        [quad0 |-> HetBaseQuad(c, p, QV(qY[1])), lndet0 |-> HetBaseLnDet(c), dy |-> <<>>]))
